@@ -253,6 +253,7 @@ func (m *Msg) Build() *Msg {
 			default:
 				tag += ",opt"
 			}
+			tag += ",name=" + strings.ToLower(f.Name)
 			s.Tag = reflect.StructTag(fmt.Sprintf(`protobuf:"%s"`, tag))
 		}
 		sf = append(sf, s)
@@ -300,6 +301,32 @@ func (m *Msg) assignNumbers(pattern int) {
 		n++
 	}
 }
+
+// AssignTagged gives the fields the numbers nums (in order) with struct tags.
+func (m *Msg) AssignTagged(nums []int) *Msg {
+	n := 0
+	for i := range m.Fields {
+		if m.Fields[i].Skip {
+			continue
+		}
+		m.Fields[i].Number = nums[n]
+		m.Fields[i].Tagged = true
+		n++
+	}
+	return m
+}
+
+// NewMsg builds a message from fields with sequential untagged numbers.
+func NewMsg(fs ...Field) *Msg { return msgOf(fs...) }
+
+// F makes a field (exported constructor for harness-defined palettes).
+func F(e Elem, w Wrap) Field { return fld(e, w) }
+
+// MapF makes a map field.
+func MapF(k Kind, e Elem) Field { return mp(k, e) }
+
+// MsgE makes a message-typed element.
+func MsgE(fs ...Field) Elem { return msgElem(fs...) }
 
 // MaxNumber reports the largest field number used (recursively).
 func (m *Msg) MaxNumber() int {
